@@ -12,6 +12,7 @@ import (
 	"fmt"
 	"os"
 	"sort"
+	"strings"
 	"sync"
 	"testing"
 	"time"
@@ -325,10 +326,21 @@ func vsDASWorld(s *verifsim.Sim) {
 
 	nsteps := s.Range(5, 60, "nsteps")
 	for step := 0; step < nsteps && !s.Violated(); step++ {
+		// a worker recording a result only waits for its own state lock: no decision. The coordinator
+		// waiting for a worker's state (statistics, checkpoint) is a decision: while it waits, workers
+		// may go on, so that a snapshot assembled from several reads of one worker can be torn.
+		s.DrainIf(200, vsIsWorkerLock)
 		ps := s.Settle()
-		w.observe()
-		if s.Violated() {
-			break
+		if !faultFree && vsCoordinatorWaits(ps) {
+			s.Probe("coordinator-parked-mid-snapshot")
+		} else {
+			s.DrainIf(200, vsIsStateLock)
+			w.observe(!faultFree)
+			if s.Violated() {
+				break
+			}
+			s.DrainIf(200, vsIsWorkerLock)
+			ps = s.Settle()
 		}
 		alts := s.TaskAlts(ps, 8)
 		if w.stopTask != nil && w.stopTask.Done() {
@@ -419,16 +431,23 @@ func vsDASWorld(s *verifsim.Sim) {
 }
 
 // observe evaluates the per-step invariants from SamplingStats.
-func (w *vsDAS) observe() {
+func (w *vsDAS) observe(tear bool) {
 	s := w.s
 	newCalls := w.newCalls
 	w.newCalls = nil
 	if w.state != "running" {
 		return
 	}
-	ctx, cancel := context.WithTimeout(context.Background(), time.Second)
-	st, err := w.d.SamplingStats(ctx)
-	cancel()
+	pendBefore := w.sampler.livePending()
+	st, err, torn := w.stats(tear)
+	if torn {
+		// calls that started while the request was in flight are not classified: exempt their heights
+		// from the attempt bookkeeping clauses of this lifetime
+		for _, c := range append(newCalls, w.newCalls...) {
+			w.multi[c.height] = true
+		}
+		w.newCalls = nil
+	}
 	if err != nil {
 		s.ViolateP("C13", "c13-coordinator-unresponsive", "SamplingStats", "SamplingStats of a running DASer failed: %v", err)
 		return
@@ -445,6 +464,11 @@ func (w *vsDAS) observe() {
 	live := w.sampler.livePending()
 	for _, c := range live {
 		pend[c.height] = true
+	}
+	if torn {
+		for _, c := range pendBefore {
+			pend[c.height] = true
+		}
 	}
 	desc := func() string {
 		return fmt.Sprintf("stats{sampled_head=%d catchup_head=%d network_head=%d failed=%v workers=%+v done=%v} pending=%v sampled=%v",
@@ -480,6 +504,11 @@ func (w *vsDAS) observe() {
 			s.ViolateP("C04", "c04-height-untracked", "stats", "height %d is not sampled, not being sampled, not queued (<= catch-up head) and not recorded as failed; %s", x, desc())
 			break
 		}
+	}
+	if torn {
+		// workers went on while the request was answered: what follows compares the statistics with
+		// the state of the world after the request and is judged on quiet requests only
+		return
 	}
 	// ---- C13
 	expectDone := len(st.Workers) == 0 && len(st.Failed) == 0 && st.CatchupHead >= st.NetworkHead
@@ -660,7 +689,7 @@ func (w *vsDAS) continuation() {
 		s.Drain(2000)
 		// the coordinator schedules retries only when an event wakes it up; the statistics
 		// request inside observe is such an event (new heads are, in a live network)
-		w.observe()
+		w.observe(false)
 		if s.Violated() {
 			return
 		}
@@ -671,14 +700,12 @@ func (w *vsDAS) continuation() {
 		s.Stall(70 * time.Minute)
 	}
 	s.Drain(2000)
-	w.observe()
+	w.observe(false)
 	if s.Violated() {
 		return
 	}
 	s.Settle()
-	ctx, cancel := context.WithTimeout(context.Background(), time.Second)
-	st, err := w.d.SamplingStats(ctx)
-	cancel()
+	st, err, _ := w.stats(false)
 	if err != nil {
 		s.ViolateP("C13", "c13-coordinator-unresponsive", "SamplingStats", "SamplingStats failed in the continuation: %v", err)
 		return
@@ -713,4 +740,75 @@ func (w *vsDAS) continuation() {
 	if !belowTail && !st.CatchUpDone {
 		s.ViolateP("C13", "c13-catchup-never-done", "continuation", "every height is sampled but catch-up is not reported done: %+v", st)
 	}
+}
+
+func vsIsWorkerLock(label string) bool { return strings.Contains(label, "lock@") && strings.Contains(label, "setResult") }
+func vsIsStateLock(label string) bool  { return strings.Contains(label, "lock@") }
+
+// vsCoordinatorWaits reports whether some goroutine waits for a worker's state lock on behalf of a
+// snapshot (statistics or checkpoint).
+func vsCoordinatorWaits(ps []verifsim.Parked) bool {
+	for _, p := range ps {
+		if p.Enabled && strings.Contains(p.Label, "lock@") && !vsIsWorkerLock(p.Label) {
+			return true
+		}
+	}
+	return false
+}
+
+// stats asks the running DASer for its statistics. The request runs as a task; with tear set, each
+// time the coordinator is about to read a worker's state the tape may let sampler calls return first
+// (at most three per request), so that workers move on between two reads of the same request. torn
+// says that this happened.
+func (w *vsDAS) stats(tear bool) (st SamplingStats, err error, torn bool) {
+	s := w.s
+	t := s.Go("stats", func() {
+		ctx, cancel := context.WithTimeout(context.Background(), time.Second)
+		defer cancel()
+		st, err = w.d.SamplingStats(ctx)
+	})
+	releases, stalled := 0, false
+	for i := 0; i < 2000 && !t.Done(); i++ {
+		ps := s.Settle()
+		if t.Done() {
+			break
+		}
+		if tear && os.Getenv("VERIF_NOTEAR") == "" && releases < 3 && vsCoordinatorWaits(ps) {
+			if live := w.sampler.livePending(); len(live) > 0 && s.Chance(1, 4, "worker_moves_during_stats") {
+				c := live[s.Choose(len(live), "which_call")]
+				o := vsOK
+				if s.Chance(1, 2, "that_call_fails") {
+					o = vsFail
+				}
+				s.Fault("worker-progress-during-stats")
+				w.multi[c.height] = true
+				w.sampler.release(c, o)
+				releases++
+				torn = true
+				s.DrainIf(200, vsIsWorkerLock)
+				continue
+			}
+		}
+		var pick *verifsim.Parked
+		for j := range ps {
+			if ps[j].Enabled && (vsIsStateLock(ps[j].Label) || ps[j].Label == "start stats") {
+				pick = &ps[j]
+				break
+			}
+		}
+		if pick == nil {
+			if stalled {
+				break
+			}
+			// nobody to release: the request ends by itself or runs into its deadline
+			stalled = true
+			s.Stall(1100 * time.Millisecond)
+			continue
+		}
+		s.Release(*pick)
+	}
+	if !t.Done() {
+		err = fmt.Errorf("verif: statistics request did not return")
+	}
+	return st, err, torn
 }
